@@ -8,6 +8,7 @@ from mpilot import params
 from mpilot.commands import Command
 from mpilot.utils import insure_fuzzy
 from .exceptions import NoSuchVariable, InvalidPositiveData, InvalidFuzzyData
+from ..exceptions import MixedArrayShapes
 from ..mixins import SameArrayShapeMixin
 
 FUZZY_MIN = -1
@@ -145,6 +146,11 @@ class EEMSWrite(SameArrayShapeMixin, Command):
         with Dataset(kwargs["OutFileName"], "w") as dataset:
             with Dataset(kwargs["DimensionFileName"]) as dim_dataset:
                 dimensions = dim_dataset[kwargs["DimensionFieldName"]].dimensions
+
+                # The results are written as they are: they must have the shape of the template's variable
+                template_shape = tuple(dim_dataset[kwargs["DimensionFieldName"]].shape)
+                if arrays[0].shape != template_shape:
+                    raise MixedArrayShapes(arrays[0].shape, template_shape, lineno=self.lineno)
                 for dimension in dimensions:
                     if dimension not in dim_dataset.variables:
                         # A dimension without a coordinate variable
